@@ -96,6 +96,10 @@ class RLE:
         return out
 
 
+if hasattr(sys, "set_int_max_str_digits"):
+    sys.set_int_max_str_digits(0)      # constant folding in generated expressions can give very long integers
+
+
 class Err:
     """An error outcome, mapped to a small enum so that messages never
     take part in a comparison."""
